@@ -288,7 +288,19 @@ func (s *JavaFullListener) EnterAnnotation(ctx *parser.AnnotationContext) {
 	}
 }
 
+// enterFunctionScope forgets the parameters and local variables of the previous method or
+// constructor: their names mean nothing in the next one.
+func enterFunctionScope() {
+	if currentType == "CreatorClass" {
+		// a method of an anonymous class still sees the enclosing method's variables
+		return
+	}
+	formalParameters = make(map[string]string)
+	localVars = make(map[string]string)
+}
+
 func (s *JavaFullListener) EnterConstructorDeclaration(ctx *parser.ConstructorDeclarationContext) {
+	enterFunctionScope()
 	name := ctx.Identifier().GetText()
 	position := BuildPosition(ctx.BaseParserRuleContext, name)
 
@@ -316,6 +328,7 @@ func (s *JavaFullListener) ExitConstructorDeclaration(ctx *parser.ConstructorDec
 }
 
 func (s *JavaFullListener) EnterMethodDeclaration(ctx *parser.MethodDeclarationContext) {
+	enterFunctionScope()
 	name := ""
 
 	if ctx.Identifier() != nil {
